@@ -311,7 +311,8 @@ func (f *FSM) processAutoEvent(mode EventRunMode, args ...interface{}) (exists b
 func (f *FSM) do(trEvent *trEvent, args ...interface{}) (resp *Response, err error) {
 	var outEvent Event
 
-	resp = &Response{}
+	// a rejected event reports the unchanged current state, never an empty one
+	resp = &Response{State: f.State()}
 
 	// Process auto event
 	isAutoEventExecuted, outEvent, data, err := f.processAutoEvent(EventRunBefore, args...)
